@@ -410,10 +410,8 @@ func check(t ev.T, test string, c Case) {
 	framing := c.Entry != "output"
 	body := entries
 	if c.Entry == "start-stop" {
-		// Start() announces the process with its own message ("Started process [pid]"), not with the start message
-		if len(entries) == 0 || entries[0].Err || !strings.HasPrefix(entries[0].text(), "Started process [") {
-			ev.Fail(t, prop, test, c, "the first message is not the announcement of the started process: %v", describe(entries, 3))
-		}
+		// Start() does not log the start message: it announces the process ("Started process [pid]") once it has been
+		// started, so the first output of the child may come before that announcement. Nothing is asserted about it.
 	} else if framing {
 		if len(entries) == 0 || entries[0].Err || entries[0].text() != startMsg {
 			ev.Fail(t, prop, test, c, "the first message is not the start message: %v", describe(entries, 3))
